@@ -32,8 +32,14 @@ def stubs(w):
     path = types.SimpleNamespace(
         abspath=os.path.abspath, relpath=os.path.relpath, join=os.path.join, split=os.path.split,
         exists=lambda p: (w.trace.append(("exists?", p)), w.nd("exists:" + p))[1],
+        lexists=lambda p: (w.trace.append(("exists?", p)), w.nd("lexists:" + p))[1],
+        isdir=lambda p: (w.trace.append(("isdir?", p)), w.nd("isdir:" + p))[1],
+        islink=lambda p: (w.trace.append(("islink?", p)), w.nd("islink:" + p))[1],
+        dirname=os.path.dirname, basename=os.path.basename, normpath=os.path.normpath,
         isfile=lambda p: (w.trace.append(("isfile?", p)), w.nd("isfile:" + p))[1])
-    os_ = types.SimpleNamespace(path=path, makedirs=lambda p: w.eff("makedirs", p), rename=lambda a, b: w.eff("rename", a, b),
+    os_ = types.SimpleNamespace(path=path, makedirs=lambda p, *a, **k: w.eff("makedirs", p), rename=lambda a, b: w.eff("rename", a, b),
+                                replace=lambda a, b: w.eff("rename", a, b),
+                                remove=lambda p: w.eff("remove", p), unlink=lambda p: w.eff("remove", p),
                                 rmdir=lambda p: w.eff("rmdir", p), sep=os.sep)
     filecmp = types.SimpleNamespace(cmp=lambda a, b: (w.trace.append(("cmp?", a, b)), w.nd("equal"))[1])
     return os_, filecmp
@@ -80,7 +86,7 @@ def mirror_effects(ck, mod):
         # move mode: once mirror_fun(src,tmp) succeeded the only thing that may happen to tmp is rename(tmp,dest)
         if ("mirror_fun", FILE, TMP) in tr:
             i = tr.index(("mirror_fun", FILE, TMP))
-            nxt = [t for t in tr[i + 1:] if t[0] not in ("exists?", "isfile?", "cmp?")]
+            nxt = [t for t in tr[i + 1:] if t[0] not in ("exists?", "isfile?", "cmp?", "isdir?", "islink?")]
             ck.struct("m.move_never_lost", bool(nxt) and nxt[0][0] in ("rename", "rename!failed") and nxt[0][1:] == (TMP, DEST),
                       "after the staged transfer the next file-system operation must be rename(tmp, dest): %s" % tag, meta)
         # idempotence: destination present and equal -> nothing is written
@@ -99,8 +105,9 @@ def mirror_effects(ck, mod):
                 s.add(ex_dest[0], eq[0])
                 ck.struct("m.idempotent", s.check() == z3.unsat, "an identical destination file must not be rewritten: %s" % tag, meta)
         # only directories of the source are removed, never files; nothing under the destination is removed
-        bad = [t for t in tr if t[0].startswith("rmdir") and not t[1].startswith(SRC)]
-        ck.struct("m.no_destination_removal", not bad, "unexpected removal %s" % bad, meta)
+        bad = [t for t in tr if (t[0].startswith("rmdir") and not t[1].startswith(SRC)) or t[0].startswith("remove")]
+        ck.struct("m.no_destination_removal", not bad,
+                  "the mirror must never delete a file (a staged tmp.<name> may be the only copy of a moved file) nor a destination directory: %s" % bad, meta)
     ck.extra["mirror_paths"] = n
     if n < 8:
         raise EngineError("too few paths through mirror_to_dest (%d)" % n)
